@@ -72,6 +72,7 @@ func findValuesPkg(S *Streams, name string) *packages.Package {
 
 func checkCodecs(res *Result, S *Streams, rule string) {
 	checkDurationSign(res, rule)
+	checkDurationWriterSign(res, rule)
 	checkAnyURIReader(res, rule)
 	// duration
 	if p := findValuesPkg(S, "duration"); p == nil {
@@ -227,6 +228,15 @@ func checkCodecs(res *Result, S *Streams, rule string) {
 		w := layoutOf(fns["SerializeDateTime"], "Format")
 		r := layoutOf(fns["DeserializeDateTime"], "Parse")
 		res.check(len(w) == 1 && w[0] == "2006-01-02T15:04:05Z07:00" && len(r) >= 1 && r[0] == w[0], rule, "values/dateTime", S.pos(fns["SerializeDateTime"]), "dateTime: written as RFC 3339 and read first as RFC 3339 (canonical forms round-trip)", fmt.Sprintf("writer layouts %v, reader layouts %v", w, r))
+		// every accepted layout spells the zone the way the writer does ("Z07:00": the letter Z
+		// for UTC, an offset otherwise); "-07:00" would refuse the Z the writer itself produces
+		var badZone []string
+		for _, l := range r {
+			if !strings.Contains(l, "Z07:00") {
+				badZone = append(badZone, l)
+			}
+		}
+		res.check(len(r) >= 2 && len(badZone) == 0, rule, "values/dateTime", S.pos(fns["DeserializeDateTime"]), "dateTime: every reader layout (with and without seconds) accepts the zone forms the writer produces (Z07:00)", fmt.Sprintf("reader layouts %v; layouts that refuse the designator Z: %v", r, badZone))
 	} else {
 		res.undecided(rule, "values/dateTime", "-", "dateTime codec found", "missing")
 	}
@@ -726,6 +736,68 @@ func checkC01(res *Result) {
 					return true
 				})
 				res.check(okOne, "C01-R4", pm.G.Dir, S.pos(sfd), "a single element is written as a scalar", "no `if len(s) == 1 { return s[0], nil }`")
+				// an empty list is written as [] (a nil slice would be marshalled as null and the
+				// member lost on the next read): the slice returned on success is allocated
+				okAlloc, whyAlloc := true, ""
+				ast.Inspect(sfd.Body, func(n ast.Node) bool {
+					r, ok := n.(*ast.ReturnStmt)
+					if !ok || len(r.Results) != 2 || !isIdentNamed(r.Results[1], "nil") {
+						return true
+					}
+					id, ok := r.Results[0].(*ast.Ident)
+					if !ok {
+						return true
+					}
+					obj := info.ObjectOf(id)
+					if obj == nil {
+						return true
+					}
+					if _, isSlice := obj.Type().Underlying().(*types.Slice); !isSlice {
+						return true
+					}
+					// the declaration of that variable
+					declared := false
+					ast.Inspect(sfd.Body, func(m ast.Node) bool {
+						switch x := m.(type) {
+						case *ast.AssignStmt:
+							if x.Tok == token.DEFINE {
+								for i, l := range x.Lhs {
+									if li, ok := l.(*ast.Ident); ok && info.ObjectOf(li) == obj && i < len(x.Rhs) {
+										declared = true
+										rhs := x.Rhs[i]
+										if pe, ok := rhs.(*ast.ParenExpr); ok {
+											rhs = pe.X
+										}
+										switch y := rhs.(type) {
+										case *ast.CallExpr:
+											if !isIdentNamed(y.Fun, "make") && !isIdentNamed(y.Fun, "append") {
+												okAlloc, whyAlloc = false, "the list starts as "+types.ExprString(rhs)
+											}
+										case *ast.CompositeLit:
+										default:
+											okAlloc, whyAlloc = false, "the list starts as "+types.ExprString(rhs)
+										}
+									}
+								}
+							}
+						case *ast.ValueSpec:
+							for i, nm := range x.Names {
+								if info.ObjectOf(nm) == obj {
+									declared = true
+									if i >= len(x.Values) {
+										okAlloc, whyAlloc = false, "the list is declared without a value (nil)"
+									}
+								}
+							}
+						}
+						return true
+					})
+					if !declared {
+						okAlloc, whyAlloc = false, "the declaration of the returned list was not found"
+					}
+					return true
+				})
+				res.check(okAlloc, "C01-R4", pm.G.Dir, S.pos(sfd), "an empty list is written as [] (the list returned on success is allocated, never nil)", whyAlloc+": an empty list is marshalled as null, which the reader takes for 'member absent' — the member is gone after one more round trip")
 			}
 		}
 	}
